@@ -147,6 +147,13 @@ def make_shape(root, seed):
         obj.landmarks  # instantiates the empty manager: `_landmarks is not None and n_groups == 0`
     if d == 2:
         place(obj, into_domain)
+    if variant in ("int", "f32"):
+        def cast(a):
+            return np.round(a).astype(np.int64) if variant == "int" else a.astype(np.float32)
+
+        obj.points = cast(obj.points)
+        for g in obj.landmarks:
+            obj.landmarks[g].points = cast(obj.landmarks[g].points)
     if variant == "out":
         p = obj.points.copy()
         p[-1] = OUTSIDE
@@ -240,6 +247,11 @@ class C02(Check):
                 out.append((cls, d, 1, "nested"))
             out.append((cls, 2, 2, "out"))
             out.append((cls, 2, 2, "lm-out"))
+        # coordinate dtypes other than float64 (PointCloud keeps what it is given): integer and single precision
+        for cls in ("PointCloud", "TriMesh", "PointUndirectedGraph", "LabelledPointUndirectedGraph", "PointTree"):
+            for d in (2, 3):
+                out.append((cls, d, 1, "int"))
+                out.append((cls, d, 1, "f32"))
         return out
 
     def build(self, root):
